@@ -280,6 +280,34 @@ fn faults_for(mode: Mode, tier: Tier, seed: u64, img: &ImageInfo) -> Vec<Fault> 
                 });
             }
         }
+        // every single bit of every pack's header blocks and tail (the masks above are a few bytes
+        // wide or narrow, and a header field may have exactly one "interesting" neighbour value:
+        // 'c' and 'C' differ by bit 5), and the kind byte replaced by each other valid pack kind
+        for span in &img.spans[fi] {
+            // the 64-byte pack header block (magic, kind, versions, sizes): all eight bits
+            let hot: Vec<u64> = (span.start..(span.start + 64).min(len)).collect();
+            if mode == Mode::C04 && span.kind == b'C' {
+                // C04 judges the checked range of manifest / directory / content packs only
+                continue;
+            }
+            for pos in hot {
+                for bit in 0..8u8 {
+                    let mask = 1u8 << bit;
+                    if !b.masks.contains(&mask) {
+                        out.push(Fault::Flip { file: fi, pos, mask });
+                    }
+                }
+            }
+            let kpos = span.start + 3;
+            if (kpos as usize) < file.len() {
+                for other in [b'm', b'd', b'c', b'C'] {
+                    let mask = file[kpos as usize] ^ other;
+                    if mask != 0 && mask.count_ones() > 1 {
+                        out.push(Fault::Flip { file: fi, pos: kpos, mask });
+                    }
+                }
+            }
+        }
         // multi-byte damage
         for _ in 0..b.ranges {
             if len == 0 {
@@ -436,11 +464,15 @@ fn faults_for(mode: Mode, tier: Tier, seed: u64, img: &ImageInfo) -> Vec<Fault> 
             };
             out.push(Fault::Multi(vec![a, bb]));
         }
-        // (C04) an altered content pack next to another content pack that is not there at all: the
-        // container check covers the packs that are present, whichever of them is missing
-        if mode == Mode::C04 && img.spans[fi].first().map(|s| s.kind) == Some(b'c') {
+        // (C04, C05) an altered content pack next to another content pack that is not there at all:
+        // the container check covers the packs that are present, whichever of them is missing
+        if mode != Mode::C06 && img.spans[fi].first().map(|s| s.kind) == Some(b'c') {
             let span = &img.spans[fi][0];
-            let (lo, hi) = (span.start + 64, span.start + span.checked_end());
+            let (lo, hi) = if mode == Mode::C04 {
+                (span.start + 64, span.start + span.checked_end())
+            } else {
+                (span.start + 128, span.start + span.check_info_pos)
+            };
             for fj in 0..img.bytes.len() {
                 if fj == fi || img.spans[fj].first().map(|s| s.kind) != Some(b'c') {
                     continue;
@@ -761,7 +793,8 @@ pub fn child_main(args: &Args) -> ! {
                 } else {
                     Dump(pristine_dump.0.iter().filter(|(p, _)| !p.starts_with("after_rewrite/")).cloned().collect())
                 };
-                let diffs = dump::structural_diff(&reference, &d);
+                let removed = fault.encode().contains("remove:");
+                let diffs = dump::structural_diff_opts(&reference, &d, removed);
                 let nerr = d.0.iter().filter(|(_, l)| l.is_err()).count();
                 let changed = d != reference;
                 json!({
